@@ -112,6 +112,18 @@ def main(tier, seed):
                 if not (numpy.array_equal(x3, x) and numpy.array_equal(V3, V2)):
                     rep.violation('conv:roundtrip2', 'utpm2base_and_dirs(base_and_dirs2utpm(x,V)) != (x,V) for shape %s' % (data.shape,),
                                   dict(kind='conv', shape=list(data.shape)))
+                # user-supplied base points of another kind (Python list, integer / float32 array) with non-integer directions: nothing
+                # may be lost (the polynomial must hold V exactly)
+                Vf = V2 + 0.375
+                for kind, xk in (('list', numpy.asarray(x).astype(int).tolist()), ('int array', numpy.asarray(x).astype(int)),
+                                 ('float32 array', numpy.asarray(x).astype(numpy.float32)), ('float array', numpy.asarray(x, dtype=float))):
+                    rep.count('conv:base kind', kind)
+                    uk = U.base_and_dirs2utpm(xk, Vf)
+                    xk2, Vk2 = U.utpm2base_and_dirs(uk)
+                    if not (numpy.array_equal(Vk2, Vf) and numpy.array_equal(numpy.asarray(xk2, dtype=float), numpy.asarray(xk, dtype=float))):
+                        rep.violation('conv:roundtrip2:dtype', 'utpm2base_and_dirs(base_and_dirs2utpm(x,V)) != (x,V) for a %s base point and float directions (shape %s)' % (kind, data.shape),
+                                      dict(kind='conv', shape=list(data.shape), base_kind=kind))
+                        break
                 # the Coq gather of the inverse direction, on the shape of V2 (= shp + (P, D-1))
                 offs = numpy.arange(V2.size).reshape(V2.shape)
                 tc = offs.transpose((V2.ndim - 1, V2.ndim - 2) + tuple(range(V2.ndim - 2)))
@@ -160,6 +172,19 @@ def main(tier, seed):
             dn = UTPM(x.copy()).shift(-s).data[:, 0]
             add('(sh %d%%N false %s %s)' % (s, qseq([lib.frac(c) for c in x[:, 0]]), qseq([lib.frac(c) for c in up])), dict(kind='shift', s=s, D=D))
             add('(sh %d%%N true %s %s)' % (s, qseq([lib.frac(c) for c in x[:, 0]]), qseq([lib.frac(c) for c in dn])), dict(kind='shift', s=-s, D=D))
+            # call forms: fresh result, out= a separate buffer, out= the operand itself (in place), several directions and shapes
+            P_ = rng.randint(1, 2); shp_ = rng.choice([(), (2,)])
+            xx = numpy.array([dy(rng) for _ in range(D * P_ * int(numpy.prod(shp_, dtype=int)))]).reshape((D, P_) + shp_)
+            for sh_ in (s, -s):
+                plain = numpy.array(UTPM(xx.copy()).shift(sh_).data, copy=True)
+                buf = UTPM(numpy.zeros_like(xx)); UTPM(xx.copy()).shift(sh_, out=buf)            # out= is documented by use only: a zeroed buffer
+                inpl = UTPM(xx.copy()); inpl.shift(sh_, out=inpl)
+                keep = slice(sh_, None) if sh_ > 0 else slice(None, D + sh_)                    # the retained coefficients (the others are unspecified in place)
+                rep.count('shift:call form', 'out=buffer / out=self')
+                if not numpy.array_equal(buf.data, plain) or not numpy.array_equal(inpl.data[keep], plain[keep]):
+                    rep.violation('shift:callform', 'shift(%d, out=...) differs from shift(%d): %s' % (sh_, sh_, 'separate buffer' if not numpy.array_equal(buf.data, plain) else 'out = the operand itself'),
+                                  dict(kind='shift', s=sh_, x=xx.tolist()))
+                    break
             back = UTPM(x.copy()).shift(s).shift(-s).data[:, 0]
             if not numpy.array_equal(back[:D - s], x[:D - s, 0]):
                 rep.violation('shift:roundtrip', 'shift(%d) then shift(%d) changes the retained coefficients (D=%d)' % (s, -s, D), dict(kind='shift', s=s, x=x[:, 0].tolist()))
